@@ -201,11 +201,12 @@ CState(g) ==
   /\ UNCHANGED <<now, cache, ren, tmu, stateMu, renewalMu, rpc, rnew, ck, got, calls, res, spc, todo, scur, stopped, cnt, live, hiNA, iter, failing>>
 
 \* the owner's issuance ends; on success the state is filled and startRenew called before the write lock is released
-Issue(g, o) ==
+\* (c: the certificate the CA issues -- Fresh(k) in the model, the recorded one in trace validation)
+Fresh(k) == [k |-> k, id |-> cnt + 1, nb |-> now, na |-> now + Life]
+Issue(g, o, c) ==
   /\ pc[g] = "issue"
   /\ o = "ok" => (cnt < MaxCerts /\ renewalMu = "free")
-  /\ LET k == ck[g]
-         c == [k |-> k, id |-> cnt + 1, nb |-> now, na |-> now + Life] IN
+  /\ LET k == ck[g] IN
      /\ ev' = E("issue", k)
      /\ IF o = "ok"
         THEN /\ cnt' = cnt + 1 /\ SetState(k, c) /\ StartRenew(k, c)
@@ -221,6 +222,17 @@ Put(g) ==
   /\ Serve(g, got[g])
   /\ ev' = E("put", ck[g])
   /\ UNCHANGED <<now, st, ren, tmu, stateMu, renewalMu, rpc, rnew, ck, got, calls, spc, todo, scur, stopped, cnt, live, hiNA, iter, failing>>
+
+\* a further startRenew for a key that is registered ("another goroutine is already on it"): the call sites
+\* reach startRenew only when the key had no state, so in the Manager this is defensive; it is exercised
+\* through the hook VerifStartRenew.  It must be a no-op (T2).
+ExtraStart(g) ==
+  /\ pc[g] = "idle" /\ calls[g] < MaxCalls /\ renewalMu = "free"
+  /\ \E k \in Keys : /\ ren[k].inmap /\ st[k].cert.id # 0
+                      /\ StartRenew(k, st[k].cert)
+                      /\ ev' = E("extrastart", k)
+  /\ calls' = [calls EXCEPT ![g] = @ + 1]
+  /\ UNCHANGED <<now, cache, st, tmu, stateMu, renewalMu, rpc, rnew, pc, ck, got, res, spc, todo, scur, stopped, cnt, hiNA, iter, failing>>
 
 \* time.AfterFunc(createCertRetryAfter): a failed (certificate-less) state is removed
 Cleanup(k) ==
@@ -264,12 +276,12 @@ RCacheGet(k, fromCache) ==
   /\ UNCHANGED <<now, cache, st, ren, tmu, stateMu, renewalMu, pc, ck, got, calls, res, spc, todo, scur, stopped, cnt, live, hiNA, failing>>
 
 \* authorizedCert
-RIssue(k, o) ==
+RIssue(k, o, c) ==
   /\ rpc[k] = "ca"
   /\ o = "ok" => cnt < MaxCerts
   /\ IF o = "ok"
      THEN /\ cnt' = cnt + 1
-          /\ rnew' = [rnew EXCEPT ![k] = [k |-> k, id |-> cnt + 1, nb |-> now, na |-> now + Life]]
+          /\ rnew' = [rnew EXCEPT ![k] = c]
           /\ rpc' = [rpc EXCEPT ![k] = "cput"] /\ UNCHANGED iter
      ELSE /\ rpc' = [rpc EXCEPT ![k] = "rearm"]
           /\ iter' = [iter EXCEPT ![k].o = "fail"] /\ UNCHANGED <<cnt, rnew>>
@@ -284,6 +296,14 @@ RCachePut(k, o) ==
           /\ iter' = [iter EXCEPT ![k].o = "fail"] /\ UNCHANGED cache
   /\ ev' = E("rcput", k)
   /\ UNCHANGED <<now, st, ren, tmu, stateMu, renewalMu, rnew, pc, ck, got, calls, res, spc, todo, scur, stopped, cnt, live, hiNA, failing>>
+
+\* the CA issued, but the reply (or the certificate download) never reached the Manager: the 10-minute
+\* context of the iteration expired, or the transport failed
+RLost(k) ==
+  /\ rpc[k] = "cput"
+  /\ rpc' = [rpc EXCEPT ![k] = "rearm"] /\ iter' = [iter EXCEPT ![k].o = "fail"]
+  /\ ev' = E("rlost", k)
+  /\ UNCHANGED <<now, cache, st, ren, tmu, stateMu, renewalMu, rnew, pc, ck, got, calls, res, spc, todo, scur, stopped, cnt, live, hiNA, failing>>
 
 \* updateState: the pointer swap under stateMu; then next() for the certificate now in the state
 RUpdate(k) ==
@@ -361,10 +381,11 @@ Tick ==
 
 Next == \/ \E g \in Callers : \/ \E k \in Keys : Call(g, k)
                               \/ Lookup(g) \/ LookupFinish(g) \/ Wait(g) \/ CState(g) \/ Put(g)
-                              \/ \E o \in CAOutcomes : Issue(g, o)
-        \/ \E k \in Keys : \/ Cleanup(k) \/ Fire(k) \/ RStart(k) \/ RUpdate(k) \/ RRearm(k)
+                              \/ \E o \in CAOutcomes : Issue(g, o, Fresh(ck[g]))
+                              \/ ExtraStart(g)
+        \/ \E k \in Keys : \/ Cleanup(k) \/ Fire(k) \/ RStart(k) \/ RUpdate(k) \/ RRearm(k) \/ RLost(k)
                            \/ \E b \in BOOLEAN : RCacheGet(k, b)
-                           \/ \E o \in CAOutcomes : RIssue(k, o)
+                           \/ \E o \in CAOutcomes : RIssue(k, o, Fresh(k))
                            \/ \E o \in PutOutcomes : RCachePut(k, o)
         \/ SBegin \/ SNext \/ SLock \/ SLoop \/ SWait
         \/ Tick
@@ -381,11 +402,11 @@ T1_OneTimer == \A k \in Keys :
                  /\ Running(k) => (tmu[k] = "renew" /\ ren[k].timer.s = "fired")
                  /\ (tmu[k] = "renew") => Running(k)
 \* T2 is an action property: a call that finds the key registered leaves the renewal alone
-T2_StartNoop == [][\A k \in Keys : (ren[k].inmap /\ ev'.t \in {"lookup", "lookupfinish", "issue"}) => (ren'[k] = ren[k] /\ live'[k] = live[k])]_vars
+T2_StartNoop == [][\A k \in Keys : (ren[k].inmap /\ ev'.t \in {"lookup", "lookupfinish", "issue", "extrastart"}) => (ren'[k] = ren[k] /\ live'[k] = live[k])]_vars
 T3_StopFinal == StopDone => \A k \in stopped : /\ rpc[k] = "idle" /\ ren[k].timer.s = "nil" /\ live[k] = 0
                                               /\ ~ren[k].inmap /\ tmu[k] = "free" /\ ~ren[k].close
 \* nothing is restarted for a stopped key, no renewal step of it after stopRenew returned
-T3b_NoRestart == [][(StopDone /\ ev'.k \in stopped) => ev'.t \notin {"fire", "rstart", "rcget", "rissue", "rcput", "rupdate", "rrearm"}]_vars
+T3b_NoRestart == [][(StopDone /\ ev'.k \in stopped) => ev'.t \notin {"fire", "rstart", "rcget", "rissue", "rcput", "rlost", "rupdate", "rrearm"}]_vars
 \* T4/T5 look at the moment the iteration ends (rpc = "rearm": everything but the timer is done)
 T4_RenewReplaces == \A k \in Keys : (rpc[k] = "rearm" /\ iter[k].o = "ok") =>
                         /\ st[k].cert = rnew[k] /\ cache[k] = rnew[k] /\ rnew[k].id # iter[k].old.id
